@@ -160,9 +160,35 @@ func run(s Script, v *vt.V) {
 						// the session is resumed after its commit and written to: what was
 						// committed under the digest must not change
 						if w2, err := reg.PushBlobChunkedResume(ctx, repo, id, -1, 0); err == nil {
-							w2.Write(bytes.Repeat([]byte{0xEE}, len(data)+3))
-							w2.Close()
+							extra := bytes.Repeat([]byte{0xEE}, len(data)+3)
+							_, werr := w2.Write(extra)
 							v.Class("write-after-commit")
+							if werr == nil && len(st.Parts)%4 == 1 {
+								// a second commit of the grown session: whatever it accepts must be served
+								all := append(append([]byte(nil), data...), extra...)
+								if _, err := w2.Commit(sha(all)); err == nil {
+									v.Class("second-commit-accepted")
+									r, err := reg.GetBlob(ctx, repo, sha(all))
+									if err != nil {
+										fail(i, st, "accepted-not-served", "a second Commit of the session (now %d bytes) was accepted under %s, but that digest cannot be read: %v", len(all), sha(all), err)
+										return
+									}
+									got, rerr := io.ReadAll(r)
+									r.Close()
+									if rerr != nil || !bytes.Equal(got, all) {
+										fail(i, st, "accepted-not-served", "a second Commit of the session was accepted under %s, but reading it yields %d bytes (err %v), want the %d bytes written", sha(all), len(got), rerr, len(all))
+										return
+									}
+								}
+							} else if werr == nil && len(st.Parts)%4 == 3 {
+								// a second commit that names the first digest again: the content no longer matches it
+								if _, err := w2.Commit(dg); err == nil {
+									fail(i, st, "mismatch-accepted", "a second Commit of the session (now %d bytes) under the digest of its first %d bytes was accepted", len(data)+len(extra), len(data))
+									return
+								}
+								v.Class("second-commit-mismatch-refused")
+							}
+							w2.Close()
 						}
 					}
 				}
